@@ -19,7 +19,7 @@ import (
 func init() {
 	Register(&Check{
 		Spec: core.Spec{ID: "C26", Level: "exploration",
-			Rule:        "case = one engine with BloomFalsePositiveRate p in {0.3, 0.1, 0.01, 0.001, 1e-4} ingesting rows built to carry a chosen number of distinct tokens (1 .. 50 000 quick, .. 300 000 thorough, plus volume cases of 600 000 - 1 500 000 distinct tokens in one file (one in the quick tier, one in 40 thorough), flushed at once or merged from three files; few distinct field names with many tokens, the realistic skew), flushed as one or several blocks and in some cases merged. Every fourth case has two engine configurations with different rates sharing the store (one writes, the other merges; blocks that are rebuilt and blocks that are copied end up side by side), and each filter is then probed against the rate its own metadata records, which must be one of the two configured rates. Every filter (field, token, field:token; block level and file level) is read back through ReadFileMetadata / ReadDataBlockBloomFilters, its distinct entry count n measured with the reference walker, and probed with N = max(2e5, 200/p) (cap 2e7) strings that were never inserted (disjoint alphabet). Oracle: observed rate <= 3p + 6*sqrt(3p(1-3p)/N) (3 = the maintainers' documented tolerance, 6 sigma = probe sampling error). evaluations = filters probed; non-trivial = filter with n >= 50; distinct = distinct (n, p, level, kind)",
+			Rule:        "case = one engine with BloomFalsePositiveRate p in {0.3, 0.1, 0.01, 0.001, 1e-4} ingesting rows built to carry a chosen number of distinct tokens (1 .. 50 000 quick, .. 300 000 thorough, plus volume cases (quick: one of 900 000 distinct tokens at 1e-4; thorough: one in 40, 600 000 - 2 500 000 at 0.001 / 1e-4) in one file, flushed at once or merged from three files; few distinct field names with many tokens, the realistic skew), flushed as one or several blocks and in some cases merged. Every fourth case has two engine configurations with different rates sharing the store (one writes, the other merges; blocks that are rebuilt and blocks that are copied end up side by side), and each filter is then probed against the rate its own metadata records, which must be one of the two configured rates. Every filter (field, token, field:token; block level and file level) is read back through ReadFileMetadata / ReadDataBlockBloomFilters, its distinct entry count n measured with the reference walker, and probed with N = max(2e5, 200/p) (cap 2e7) strings that were never inserted (disjoint alphabet). Oracle: observed rate <= 3p + 6*sqrt(3p(1-3p)/N) (3 = the maintainers' documented tolerance, 6 sigma = probe sampling error). evaluations = filters probed; non-trivial = filter with n >= 50; distinct = distinct (n, p, level, kind)",
 			Assumptions: []string{"tolerance 3x the configured rate as pinned by TestFalsePositiveRateWithinBudget", "probe strings start with a byte (0x01) no generator emits"},
 			Floors:      map[string]int64{"filters_probed": 60, "filters_n_ge_50": 20, "probes": 5000000, "volume_cases": 1, "two_engine_cases": 3}},
 		Cases: func(t string) int { return nQueries(t, 24, 320) },
@@ -66,10 +66,11 @@ func runC26(rc *RunCtx, i int) {
 	// (a long merge history or one very large flush), where a filter's size reaches megabytes
 	volumeCase := (rc.Tier != "thorough" && i == 5) || (rc.Tier == "thorough" && i%40 == 5)
 	if volumeCase {
-		p = core.Pick(r, []float64{0.001, 1e-4})
-		n = core.Pick(r, []int{600000, 900000})
+		// quick: 900 000 entries at 1e-4 (17 Mbit per filter); thorough also 0.001 and 1.5 M / 2.5 M
+		p, n = 1e-4, 900000
 		if rc.Tier == "thorough" {
-			n = core.Pick(r, []int{600000, 900000, 1500000})
+			p = core.Pick(r, []float64{0.001, 1e-4})
+			n = core.Pick(r, []int{600000, 900000, 1500000, 2500000})
 		}
 		rc.Res.Count("volume_cases", 1)
 	}
@@ -86,7 +87,7 @@ func runC26(rc *RunCtx, i int) {
 	// distinct tokens (blocks whose filters share one shape; the file filter must still be
 	// sized for the union)
 	parts := 1
-	if i%3 == 2 {
+	if i%3 == 2 && !(volumeCase && (rc.Tier != "thorough" || r.Bool())) {
 		parts = core.Pick(r, []int{2, 4, 8})
 		spec.Part = gen.PartFunc{Name: fmt.Sprintf("byKey:p(%d)", parts), Fn: func(row map[string]any) string { s, _ := row["p"].(string); return s }}
 		spec.Partition = spec.Part.Name
